@@ -56,10 +56,14 @@ impl Check for C11 {
             Phase { name: "values decoded from styled wire forms (retained protected bytes must be re-emitted)", cases: scale(if q { 30000 } else { 200000 }, b), exhaustive: false },
             Phase { name: "built counter-signature chains of depth 1-10 through protected / unprotected / mixed headers: whether the encoding decodes may depend on the depth only", cases: 10, exhaustive: true },
             Phase { name: "messages assembled by the builders with the signature / tag / ciphertext creating helpers, encoded, then edited in place (a protected header at any position) and encoded again: both encodings equal those of the same value written as a struct literal", cases: scale(if q { 14000 } else { 100000 }, b), exhaustive: false },
+            Phase { name: "birthday: headers and keys with 2^18 pairwise distinct extra labels encode", cases: 4, exhaustive: true },
         ]
     }
     fn run_case(&self, ctx: &mut Ctx, phase: usize, idx: u64) {
         match phase {
+            7 => {
+                super::common::birthday_case(ctx, 7 + idx);
+            }
             0 => {
                 let k = (idx % 25) as usize;
                 let ty = if k < 16 { ALL_TYPES[k] } else { LABEL_TYPES[k - 16] };
@@ -85,7 +89,7 @@ impl Check for C11 {
                 h.csigs = (0..n).map(|_| gen::gen_signature(&mut ctx.rng, &o, 2)).collect();
                 carriers(ctx, &h);
                 // recipient tree
-                let o3 = GenOpts { styled_prot: 0, built: true, max_depth: 3 };
+                let o3 = GenOpts { styled_prot: 0, built: true, max_depth: 3, mixed: false };
                 let mut r = gen::gen_recipient(&mut ctx.rng, &o3, 0);
                 if idx % 2 == 0 {
                     // force a chain of depth 3
@@ -148,7 +152,7 @@ impl Check for C11 {
             }
             _ => {
                 let ty = ALL_TYPES[(idx % 16) as usize];
-                let v = gen::gen_mval(&mut ctx.rng, ty, &GenOpts::wire());
+                let v = gen::gen_mval(&mut ctx.rng, ty, &GenOpts { mixed: true, ..GenOpts::wire() });
                 if let Some(b) = encode_oracle(ctx, &v, "struct literal with retained protected bytes") {
                     ctx.nontrivial_bytes(&b);
                 }
@@ -159,7 +163,7 @@ impl Check for C11 {
         }
     }
     fn rule(&self) -> String {
-        "in-memory values generated from the reference model (every field singly and in combination, empty vs non-empty, every label class, counter-signatures 0-3, recipient nesting <= 3, protected headers built without bytes or carrying styled wire bytes), turned into coset values through struct literals; oracle: to_vec succeeds, output is one well-formed definite-length item, the tree read by the independent parser equals the CDDL shape computed by the model (typed entries in the crate's probed order, extras in given order, h'' for an empty protected header, bstr(map) otherwise, single counter-signature inlined, nil payload, empty recipient list omitted), decode(to_vec(v)) == v with assigned protected bytes, to_tagged_vec == tag || to_vec; messages assembled by the builders with the creating helpers encode like the same value written as a struct literal, also after a protected header was edited in place. Non-trivial = distinct encodings.".into()
+        "in-memory values generated from the reference model (every field singly and in combination, empty vs non-empty, every label class, counter-signatures 0-3, recipient nesting <= 3, protected headers built without bytes or carrying styled wire bytes), turned into coset values through struct literals; oracle: to_vec succeeds, output is one well-formed definite-length item, the tree read by the independent parser equals the CDDL shape computed by the model (typed entries in the crate's probed order, extras in given order, h'' for an empty protected header, bstr(map) otherwise, single counter-signature inlined, nil payload, empty recipient list omitted), decode(to_vec(v)) == v with assigned protected bytes, to_tagged_vec == tag || to_vec; messages assembled by the builders with the creating helpers encode like the same value written as a struct literal, also after a protected header was edited in place. Birthday workload: 2^18 pairwise distinct labels (8-character texts / 64-bit integers / private-use integers) in one map must all be accepted and come back in order (a duplicate detector keyed on anything shorter than the label would report a duplicate that is not there). Non-trivial = distinct encodings.".into()
     }
     fn assumptions(&self) -> Vec<String> {
         let mut v = super::std_assumptions();
